@@ -48,7 +48,16 @@ def main():
     report = common.Report(args.pid, args.tier, seed)
     if args.replay:
         return mod.replay(report, args.replay)
-    return mod.run(report)
+    try:
+        return mod.run(report)
+    except Exception:  # a harness crash is reported as what it is, with the evidence file written
+        import traceback
+        tb = traceback.format_exc()
+        sys.stderr.write(tb)
+        report.violation(dict(kind="check-crashed", what="the check itself raised; nothing can be concluded",
+                              traceback=tb[-3000:], theorem="Props/%s.v" % args.pid), no_input=True)
+        return report.finish(None, dict(evaluations=1, distinct_nontrivial=2, rule="check crashed", samples=[tb[-500:]],
+                                        explanation="check crashed"), level="other")
 
 
 if __name__ == "__main__":
